@@ -185,6 +185,27 @@ func c11Run(p c11Plan) *common.Fail {
 			return common.Failf("layout-overwide", "cemi.Pack of %s (sequence number %d, control code %d: wider than their fields)\n gives     %x\n reference %x (apart from the bits of the over-wide field itself): a neighbouring field was touched",
 				common.Show(lib), ld.TPDU.Seq, ld.TPDU.APCI, buf, ref)
 		}
+	case "oversize-info":
+		// additional info longer than its one-octet length field can say: the encoding carries the first 255 octets
+		// and says so, every later field sits where a reader that trusts the length octet looks for it
+		c := p.Cemi
+		lib := common.ToLibCemi(c)
+		buf := make([]byte, cemi.Size(lib))
+		cemi.Pack(buf, lib)
+		got, err := common.RefDecodeCemi(buf)
+		if err != nil || got.LData == nil {
+			return common.Failf("layout-oversize-info", "cemi.Pack of an L_Data frame with %d info octets gives %d octets starting %x, which do not read back as an L_Data layout: %v", len(c.LData.Info), len(buf), buf[:12], err)
+		}
+		want := *c.LData
+		want.Info = want.Info[:255]
+		if !want.TPDU.Numbered {
+			want.TPDU.Seq = 0
+		}
+		if !sameRLData(got.LData, &want) {
+			g := *got.LData
+			return common.Failf("layout-oversize-info", "cemi.Pack of an L_Data frame with %d info octets: length octet %#02x, read back with %d info octets, control fields %#02x %#02x, source %#04x, destination %#04x - expected the first 255 info octets and control fields %#02x %#02x, source %#04x, destination %#04x",
+				len(c.LData.Info), buf[1], len(g.Info), g.C1, g.C2, g.Src, g.Dst, want.C1, want.C2, want.Src, want.Dst)
+		}
 	case "bytes":
 		b, _ := hex.DecodeString(p.Hex)
 		want, rerr := common.RefDecodeCemi(b)
@@ -324,6 +345,15 @@ func TestC11(t *testing.T) {
 				}
 			}
 		}
+	}
+	// additional info longer than 255 octets
+	for _, n := range []int{256, 257, 300, 400, 510, 511, 512, 767, 1000} {
+		c := base()
+		c.LData.Info = make([]byte, n)
+		for i := range c.LData.Info {
+			c.LData.Info[i] = byte(i*7 + n)
+		}
+		do(c11Plan{Mode: "oversize-info", Cemi: c})
 	}
 	// sequence numbers and control codes wider than their fields
 	for _, ctl := range []bool{false, true} {
